@@ -183,12 +183,13 @@ Print Assumptions C03_hw_delivered_nx_min.
 (* Part 9: what the hardware model assumes about route consumption, over the text of hw/floo_route_select.sv and
    hw/floo_route_comp.sv (harness/facts_decode.py, regenerated on every run): a router takes the low RouteSelWidth bits
    of the route word as its output and shifts the word right by as many (Hw.select, HRoute case); the network
-   interface reads the word from its RoutingTables row at the destination's identity (Hw.table_word). *)
+   interface reads the word from its RoutingTables row at the destination's identity (Hw.table_word; the lookup is
+   evaluated for both values of UseIdTable after substituting the branch's local signals, so its layout does not matter). *)
 From FVGen Require Import DecodeFacts.
 Theorem C03_rtl_route_consumption :
   In "route_sel_id=channel_i.hdr.dst_id[RouteSelWidth-1:0]" rtl_src_branch_stmts /\
   In "channel_o.hdr.dst_id=channel_i.hdr.dst_id>>RouteSelWidth" rtl_src_branch_stmts /\
   In "channel_o=channel_i" rtl_src_branch_stmts /\
-  rtl_route_lookup = "(UseIdTable)?route_table_i[id_o]:route_table_i[id_i]".
+  rtl_route_lookup_idtable = "route_table_i[id_o]" /\ rtl_route_lookup_noidtable = "route_table_i[id_i]".
 Proof. vm_compute. tauto. Qed.
 Print Assumptions C03_rtl_route_consumption.
